@@ -42,7 +42,7 @@ def programs(tier):
     gated = families.ids("A10", tier)
     if tier == "quick":
         return sorted(set(reg[::17] + special[::5])) + a1[::9] + extra[::2] + gated
-    return sorted(set(reg[::2] + special)) + a1 + extra + gated
+    return sorted(set(reg[::3] + special)) + a1[::2] + extra + gated  # sized so that the thorough tier ends in about 1.5 h on 16 cores
 
 
 def sweep_programs(tier):
